@@ -319,7 +319,7 @@ func ruleC15c(c *Ctx, rule string) {
 func init() {
 	register(&PropSpec{
 		ID:          "C15",
-		Explanation: "Decides that columns are mapped by field identity (name and expression) with aligned positional builders, and that a field change is propagated: one identity across Equals/outIdxsFor/info/coalescing and writer/reader agreement of the file header; exactly-one append per input element in every positional builder; applyFields → fieldUpdates → new memstore before the next insert; the scan-continuation rule (a row without requested columns must not end the scan); raw pass-through gated on the file's own header. Added clauses: the new fields are adopted before the ALTER-triggered flush builds the next memstore; applyWhere installs the new WHERE on every path.",
+		Explanation: "Decides that columns are mapped by field identity (name and expression) with aligned positional builders, and that a field change is propagated: one identity across Equals/outIdxsFor/info/coalescing and writer/reader agreement of the file header; exactly-one append per input element in every positional builder; applyFields → fieldUpdates → new memstore before the next insert; the scan-continuation rule (a row without requested columns must not end the scan); raw pass-through gated on the file's own header. Added clauses: the new fields are adopted before the ALTER-triggered flush builds the next memstore; applyWhere installs the new WHERE on every path. Further clauses: restart resume offsets include the offset file (= C02.f); file row column slices are allocated per row.",
 		NotDecided:  []string{"end-to-end values across alteration histories", "WHERE changes apply only to points processed afterwards (applyWhere swaps the predicate under a mutex; not modelled)"},
 		Assumptions: []string{"Field.String() is injective on (name, expression rendering)"},
 		Rules: []func(*Ctx){func(c *Ctx) { ruleC15a(c, "C15.a") }, func(c *Ctx) { ruleC15b(c, "C15.b") }, func(c *Ctx) { ruleC15c(c, "C15.c") }, func(c *Ctx) { ruleC03a(c, "C15.d") }, func(c *Ctx) { ruleC03b(c, "C15.e") }, func(c *Ctx) { ruleC15f(c, "C15.f") }, func(c *Ctx) {
